@@ -14,7 +14,7 @@ demo="$src/$x.demo_test.go"
 dir=$(head -3 "$demo" | grep -o 'place in: *[a-z/]*' | sed 's/place in: *//' | sed 's#/$##')
 [ -z "$dir" ] && dir=websocket
 name="zz_seed_${p}_${x}_test.go"
-run_demo() { cp "$demo" "$dir/$name"; go test -vet=off -count=1 -timeout 300s -run "$(grep -o 'func Test[A-Za-z0-9_]*' "$demo" | sed 's/func //' | paste -sd'|')" ./$dir > "$scr/demo.out" 2>&1; rc=$?; rm -f "$dir/$name"; return $rc; }
+run_demo() { cp "$demo" "$dir/$name"; go test ${RACE:+-race} -vet=off -count=1 -timeout 300s -run "$(grep -o 'func Test[A-Za-z0-9_]*' "$demo" | sed 's/func //' | paste -sd'|')" ./$dir > "$scr/demo.out" 2>&1; rc=$?; rm -f "$dir/$name"; return $rc; }
 echo "== $id (demo in $dir)"
 run_demo; base=$?
 echo "demo on unchanged tree: exit $base"
